@@ -1,2 +1,4 @@
+pub mod borrow;
+pub mod multi_gen;
 pub mod populations;
 pub mod registry;
